@@ -13,17 +13,17 @@ SESSION_TRUST = ['support/stubs/fstream: in-memory std::fstream / file model', '
                  'engine/models.py: std::thread / mutex / condition_variable as cooperative threads (one schedule per run)']
 
 
-def session_tasks(tier, checks, prefix, msg_prefix, early=(), nobj=4, kinds=None):
+def session_tasks(tier, checks, prefix, msg_prefix, early=(), nobj=4, kinds=None, scaled=False):
     cfgs = QUICK if tier == 'quick' else THOROUGH
     out = []
     for lvl, cs, rp in cfgs:
         for ec in (-1,) + tuple(early):
             defs = '#define VP_FS_CAP 24000\n#define CFG_LEVEL %d\n#define CFG_CONTAINER %d\n#define CFG_RESTORE %d\n' \
                    '#define NOBJ %d\n#define EARLY_CLOSE_AFTER %d\n' % (lvl, cs, rp, nobj, ec)
-            defs += ''.join('#define %s 1\n' % c for c in checks)
-            tid = '%s.l%d_c%d_r%d%s' % (prefix, lvl, cs, rp, '' if ec < 0 else '_close%d' % ec)
+            defs += ''.join('#define %s 1\n' % c for c in checks) + ('#define SCALE_THRESHOLDS 1\n' if scaled else '')
+            tid = '%s%s.l%d_c%d_r%d%s' % (prefix, '_scaled' if scaled else '', lvl, cs, rp, '' if ec < 0 else '_close%d' % ec)
             out.append(Task(tid, defs + SRC, 'h_session', None,
-                            opts=dict(validate=False, extra=['zlib_stub.cpp'], limit_is_hang=True, max_steps=12000000, max_wall=900,
+                            opts=dict(validate=False, extra=['zlib_stub.cpp'], limit_is_hang=True, max_steps=12000000, max_wall=300,
                                       enum_limit=400, msg_prefix=msg_prefix),
                             desc='write session then read session of the real File (compression level %d, container size %d, '
                                  'restore points %d%s): %d objects (CanMessage, AppText, CanMessage2) with symbolic field '
@@ -31,4 +31,23 @@ def session_tasks(tier, checks, prefix, msg_prefix, early=(), nobj=4, kinds=None
                                      lvl, cs, rp, '' if ec < 0 else ', close() after %d of %d reads' % (ec, nobj), nobj),
                             reach=('h_session:end',), bounds='%d objects; one cooperative schedule' % nobj,
                             kinds=kinds or {'assert', 'memory', 'uncaught_exception', 'terminate', 'deadlock', 'hang', 'limit', 'leak'}))
+    return out
+
+
+BIG = open(os.path.join(HERE, 'harness', 'session_big.cpp')).read()
+
+
+def big_session_tasks(tier, prefix, msg_prefix, kinds=None):
+    """more data (208 KB) than the stream buffer, container size (192 KiB / 256 KiB) above the buffer size"""
+    out = []
+    for lvl, cs in (((0, 0x30000),) if tier == 'quick' else ((0, 0x30000), (6, 0x40000), (0, 0x20001))):
+        out.append(Task('%s_big.l%d_c%d' % (prefix, lvl, cs), '#define CFG_LEVEL %d\n#define CFG_CONTAINER %d\n' % (lvl, cs) + BIG,
+                        'h_big_session', None,
+                        opts=dict(validate=False, extra=['zlib_stub.cpp'], limit_is_hang=True, max_steps=60000000, max_wall=600,
+                                  msg_prefix=msg_prefix),
+                        desc='write + read session of 52 AppText objects of 4000 text bytes (208 KB, more than the 128 KiB stream '
+                             'buffer), level %d, container size %d (above the buffer size): independent container walk, header '
+                             'statistics, objects read back' % (lvl, cs),
+                        reach=('h_big_session:end',), bounds='52 objects of 4 KB; one cooperative schedule',
+                        kinds=kinds or {'assert', 'memory', 'uncaught_exception', 'terminate', 'deadlock', 'hang', 'limit', 'leak'}))
     return out
